@@ -66,7 +66,7 @@ Qed.
 Lemma make_unique_shape0 i m pp w nm w3 :
   make_unique_item_name T i m pp w = Val (OK nm, w3) ->
   exists ni x orig, w_nodes w i = Some ni /\ item_name_n T w ni = Some orig /\ model_at w m = Some x /\
-    assoc_get (pp ++ 47 :: nm) (m_idents x) = None /\
+    assoc_get (pp ++ 47 :: nm) (m_idents x) = None /\ (~ In 47 orig -> ~ In 47 nm) /\
     ((w3 = w /\ nm = orig) \/
      (exists s rest sn, n_content ni = CElem s :: rest /\ w_nodes w s = Some sn /\
         w3 = mkWorld (upd (w_nodes w) s (set_content sn [CData (DString nm)])) (w_next w) (w_files w) (w_models w))).
@@ -83,6 +83,9 @@ Proof.
   apply wret_inv in Hfree as ([= Hfree] & _).
   wk H. apply wret_inv in H as ([= ->] & ->).
   exists ni, x, orig. split; [exact Hni|]. split; [exact Eo|]. split; [exact Hx|]. split; [symmetry; exact Hfree|].
+  split.
+  { intros Hso. match goal with E : unique_loop _ _ _ _ _ _ w = Val (OK (name, counter), w) |- _ =>
+      exact (proj1 (unique_loop_name _ _ _ _ _ _ _ _ _ E Hso Hso (fun _ => eq_refl) ltac:(lia))) end. }
   match goal with E : (if _ then _ else _) w = Val _ |- _ => rename E into E2 end.
   destruct (1 <? counter) eqn:Ec.
   - destruct (n_content ni) as [|[s|d] rest] eqn:Ecn.
@@ -122,7 +125,10 @@ Lemma copy_inner_shape self other pos m v w c w' :
     (identifiable T w' c = true -> exists nm, seg T w' c = 47 :: nm /\ assoc_get (path ++ 47 :: nm) (m_idents x) = None) /\
     w_models w' = list_set (w_models w) (N.to_nat m) (reg_apply x L R) /\
     exists w3, (forall j, w_nodes w3 j = if j =? self then Some n else w_nodes w' j) /\
-               reg_entries T (fuel_of w') w3 path c = Some (L, R).
+               reg_entries T (fuel_of w') w3 path c = Some (L, R) /\
+               (forall s sn nm, ren = Some (s, sn, nm) ->
+                  exists orig, cdata_of T sn = Some (DString orig) /\ (~ In 47 orig -> ~ In 47 nm)) /\
+               (exists f, deep_copy T f other v w = Val (OK c, w1)).
 Proof.
   intros HF HI HRself H. unfold create_copied_sub_element_inner in H.
   wk H. match goal with E : get_node self w = _ |- _ => apply get_node_inv in E as (n & Hn & Q & _); injection Q as -> end.
@@ -166,11 +172,12 @@ Proof.
             (forall j, w_nodes w3 j = if j =? c0 then Some cn else renamed w1 ren j) /\
             w_next w3 = w_next w1 /\ w_files w3 = w_files w1 /\ w_models w3 = w_models w /\
             (forall s sn nm, ren = Some (s, sn, nm) -> (exists rest, n_content cn0 = CElem s :: rest) /\ w_nodes w1 s = Some sn /\ s <> c0) /\
+            (forall s sn nm, ren = Some (s, sn, nm) -> exists orig, cdata_of T sn = Some (DString orig) /\ (~ In 47 orig -> ~ In 47 nm)) /\
             (identifiable_n T w2 cn = true ->
                exists nm, assoc_get (p0 ++ 47 :: nm) (m_idents x) = None /\ item_name_n T w3 cn = Some nm)).
   { destruct (identifiable_n T w2 cn) eqn:Eid.
     - wk Emu. apply wret_inv in Emu as (_ & ->). match goal with E : make_unique_item_name T _ _ _ w2 = Val (OK ?nn, _) |- _ => rename E into Emu; rename nn into nm end.
-      destruct (make_unique_shape0 _ _ _ _ _ _ Emu) as (ni & x0 & orig & Hni & Horig & Hx0 & Hfree & Hshape).
+      destruct (make_unique_shape0 _ _ _ _ _ _ Emu) as (ni & x0 & orig & Hni & Horig & Hx0 & Hfree & Hnmsl & Hshape).
       assert (ni = cn) by (unfold w2 in Hni; cbn [w_nodes] in Hni; rewrite upd_eq in Hni; congruence). subst ni.
       assert (x0 = x) by congruence. subst x0.
       destruct Hshape as [(-> & ->)|(s & rest & sn & Hc0 & Hs0 & ->)].
@@ -190,6 +197,11 @@ Proof.
           - destruct (j =? c0); reflexivity. }
         split; [reflexivity|]. split; [reflexivity|]. split; [exact Hm1|]. split.
         { intros s' sn' nm' [= <- <- <-]. cbn [cn set_parent n_content] in Hc0. split; [eauto|]. split; [exact Hs1|exact Hsc0]. }
+        split.
+        { intros s' sn' nm' [= <- <- <-]. exists orig. split; [|exact Hnmsl].
+          unfold item_name_n in Horig. destruct (named T (n_type cn)); [|discriminate Horig].
+          unfold short_child in Horig. rewrite Hc0, Hs0 in Horig. destruct (n_name sn =? SHORTN); [|discriminate Horig].
+          destruct (cdata_of T sn) as [[| t | |]|]; try discriminate Horig. congruence. }
         intros _. exists nm. split; [exact Hfree|].
         (* the item name of the copy after the renaming *)
         unfold item_name_n in Horig |- *. destruct (named T (n_type cn)); [|discriminate].
@@ -198,7 +210,7 @@ Proof.
         destruct (cdata_of T sn) as [d|] eqn:Ecd; [|discriminate]. rewrite (cdata_of_replace sn d (DString nm) Ecd). reflexivity.
     - apply wret_inv in Emu as (_ & ->). exists None. split; [intros j; unfold w2; cbn [w_nodes renamed]; unfold upd; destruct (j =? c0); reflexivity|].
       repeat split; auto; try discriminate. }
-  destruct Hmu as (ren & N3 & X3 & F3 & M3 & Hren & Hfreenm). clear Emu.
+  destruct Hmu as (ren & N3 & X3 & F3 & M3 & Hren & Hrennm & Hfreenm). clear Emu.
   (* the registration walk *)
   wk H. match goal with E : wget w3 = _ |- _ => apply wget_inv in E as ([= ->] & _) end.
   wk H. match goal with E : register_subtree _ _ _ _ _ w3 = Val (_, ?ww) |- _ => rename E into Ereg; rename ww into w4 end.
@@ -248,7 +260,7 @@ Proof.
   exists w3. split.
   { intros j. destruct (j =? self) eqn:Ej; [apply N.eqb_eq in Ej; subst j; exact Hself3|]. apply N.eqb_neq in Ej.
     rewrite upd_neq by exact Ej. rewrite N4. reflexivity. }
-  unfold fuel_of. cbn [w_next]. rewrite X4. exact Hent.
+  split; [unfold fuel_of; cbn [w_next]; rewrite X4; exact Hent|]. split; [exact Hrennm|]. eexists. exact Edc.
 Qed.
 
 (* ---------- boolean duplicate checks *)
@@ -324,7 +336,7 @@ Qed.
 
 Section CopyInv.
 Variables (w w' w1 w3 : world) (self c : id) (n cn0 : node) (pos : nat) (m : N) (x : model) (path : list N)
-          (L R : list (list N * id)) (ren : option (id * node * list N)) (v : N) (other : id) (ids : list id).
+          (L R : list (list N * id)) (ren : option (id * node * list N)) (v : N) (other : id).
 Hypothesis HF : TreeFacts w.
 Hypothesis HI : Inv04 w.
 Hypothesis HI5 : Inv05 T w.
@@ -344,10 +356,12 @@ Hypothesis Hmodels : w_models w' = list_set (w_models w) (N.to_nat m) (reg_apply
 Hypothesis Hw3 : forall j, w_nodes w3 j = if j =? self then Some n else w_nodes w' j.
 Hypothesis Hent : reg_entries T (fuel_of w') w3 path c = Some (L, R).
 Hypothesis HFK : FreshKids (w_next w) w'.
-(* from copy_clean *)
-Hypothesis Hnew_ids : forall j nj', w_nodes w j = None -> w_nodes w' j = Some nj' -> In j ids.
-Hypothesis Hids_ok : forall j, In j ids -> node_ok T w' j = true.
-Hypothesis Hids_nt : forall j nj', In j ids -> w_nodes w' j = Some nj' -> NTn w nj'.
+(* the side invariants of the nodes allocated by the call *)
+Hypothesis Hnewside : forall j nj', ~ old w j -> w_nodes w' j = Some nj' ->
+  (n_name nj' = SHORTN -> short_type T check_fn (n_type nj')) /\
+  (forall t, n_name nj' = SHORTN -> cdata_of T nj' = Some (DString t) -> ~ In 47 t) /\
+  (identifiable_n T w' nj' = true -> item_name_n T w' nj' <> None) /\
+  (content_mode T (n_type nj') = Val MCharacters -> chars_content (n_content nj')).
 Hypothesis HLnd : NoDup (map fst L).
 Hypothesis HRnd : NoDup (map snd R).
 Hypothesis HLc : identifiable T w' c = true \/ L = [].
@@ -492,23 +506,6 @@ Proof.
   - right. rewrite (model_at_set_other _ _ _ _ _ Hmodels Hne) in H. auto.
 Qed.
 
-(* side invariants of the new nodes *)
-Lemma ci_newside j nj' : ~ old w j -> w_nodes w' j = Some nj' ->
-  (n_name nj' = SHORTN -> short_type T check_fn (n_type nj')) /\
-  (forall t, n_name nj' = SHORTN -> cdata_of T nj' = Some (DString t) -> ~ In 47 t) /\
-  (identifiable_n T w' nj' = true -> item_name_n T w' nj' <> None) /\
-  (content_mode T (n_type nj') = Val MCharacters -> chars_content (n_content nj')).
-Proof.
-  intros Hno Hj. assert (Hwj : w_nodes w j = None) by (destruct (w_nodes w j) eqn:E; [exfalso; apply Hno; eexists; eauto|reflexivity]).
-  pose proof (Hnew_ids j nj' Hwj Hj) as Hin. pose proof (Hids_ok j Hin) as Hok. destruct (Hids_nt j nj' Hin Hj) as (s0 & ns & Hs0 & Hnm & Hty).
-  unfold node_ok in Hok. rewrite Hj in Hok. apply andb_true_iff in Hok as (Hok & H3). apply andb_true_iff in Hok as (H1 & H2).
-  split; [intros E; rewrite Hty; eapply (i4_short _ _ _ HI s0 ns Hs0); rewrite <- Hnm; exact E|]. split; [|split].
-  - intros t E Hcd. apply N.eqb_eq in E. rewrite E, Hcd in H2. cbn in H2. apply negb_true_iff in H2.
-    intros Hi. assert (existsb (N.eqb 47) t = true); [|congruence]. apply existsb_exists. exists 47. split; [exact Hi|reflexivity].
-  - intros Hid. rewrite Hid in H1. cbn in H1. destruct (item_name_n T w' nj'); [discriminate|discriminate H1].
-  - intros Hm. rewrite Hm in H3. cbn in H3. destruct (n_content nj') as [|[y|d] [|z r]]; try discriminate; [left; reflexivity|right; eexists; reflexivity].
-Qed.
-
 Theorem copy_inv04 : Inv04 w'.
 Proof.
   pose proof HI as [I1 I2 I3 IL I4 I5].
@@ -529,7 +526,7 @@ Proof.
   - exact I3.
   - exact IL.
   - exact Hmode.
-  - exact ci_newside.
+  - exact Hnewside.
   - (* old elements *)
     intros m2 x2' Hx2' p i (ni & Hi). destruct (ci_idents m2 x2' Hx2') as [(-> & Hid & _)|(Hne & Hx2)].
     + rewrite Hid, (ins_all_get L (m_idents x) p HLnd). destruct (assoc_get p L) as [j|] eqn:El.
@@ -635,7 +632,7 @@ Proof.
   { destruct (CopyProofsFK.ccsei_FK T (w_next w) _ _ _ _ _ _ _ _ H) as (_ & _ & HK); [apply N.le_refl| |exact HK].
     intros p np y Hp Hnp _. pose proof (tf_alloc _ HF _ _ Hnp). lia. }
   destruct (copy_inner_shape self other pos m v w c w' HF HI HRself H)
-    as (n0 & w1 & cn0 & x & path & L & R & ren & Hn0 & Hpath & Hx & Cw1 & HE & HFR & Hcn0 & Hnx & Hfl & Hpos & Hself' & Hc' & Hother & Hren & Hfree & Hmodels & w3 & Hw3 & Hent).
+    as (n0 & w1 & cn0 & x & path & L & R & ren & Hn0 & Hpath & Hx & Cw1 & HE & HFR & Hcn0 & Hnx & Hfl & Hpos & Hself' & Hc' & Hother & Hren & Hfree & Hmodels & w3 & Hw3 & Hent & _ & _).
   assert (n0 = n) by congruence. subst n0.
   (* unfold the decidable condition *)
   unfold copy_clean in Hclean. rewrite Hn in Hclean.
@@ -676,15 +673,29 @@ Proof.
   assert (Hcn0_name : n_name cn0 = nm_of w other).
   { destruct (FiltR_inv _ _ _ _ _ _ _ HFR) as (ns & nc & Hs & Hc & _ & Hnm & _). rewrite Hcn0 in Hc. injection Hc as <-.
     unfold nm_of. rewrite Hs. exact Hnm. }
+  assert (Hnew_ids : forall j nj', w_nodes w j = None -> w_nodes w' j = Some nj' -> In j ids).
+  { intros j nj' Hwj Hj'. apply Hall. split.
+    - destruct (N.lt_ge_cases j (w_next w)) as [Hlt|Hge]; [exfalso|exact Hge].
+      assert (j <> self) by (intros ->; congruence). rewrite Hother in Hj'; [|assumption|lia].
+      destruct (renamed_cases w1 ren j) as [(E & _)|(s & sn & nm & Er & -> & _)].
+      + rewrite E in Hj'. destruct HE as (_ & Hk & _). rewrite Hk in Hj' by exact Hlt. congruence.
+      + pose proof (Hren_lo s sn nm Er). lia.
+    - eapply (proj1 Cw'); eauto. }
+  assert (Hnewside : forall j nj', ~ old w j -> w_nodes w' j = Some nj' ->
+            (n_name nj' = SHORTN -> short_type T check_fn (n_type nj')) /\
+            (forall t, n_name nj' = SHORTN -> cdata_of T nj' = Some (DString t) -> ~ In 47 t) /\
+            (identifiable_n T w' nj' = true -> item_name_n T w' nj' <> None) /\
+            (content_mode T (n_type nj') = Val MCharacters -> chars_content (n_content nj'))).
+  { intros j nj' Hno Hj. assert (Hwj : w_nodes w j = None) by (destruct (w_nodes w j) eqn:E; [exfalso; apply Hno; eexists; eauto|reflexivity]).
+    pose proof (Hnew_ids j nj' Hwj Hj) as Hin. pose proof (Hok j Hin) as Hokj. destruct (Hids_nt j nj' Hin Hj) as (s0 & ns & Hs0 & Hnm & Hty).
+    unfold node_ok in Hokj. rewrite Hj in Hokj. apply andb_true_iff in Hokj as (Hokj & H3). apply andb_true_iff in Hokj as (H1 & H2).
+    split; [intros E; rewrite Hty; eapply (i4_short _ _ _ HI s0 ns Hs0); rewrite <- Hnm; exact E|]. split; [|split].
+    - intros t E Hcd. apply N.eqb_eq in E. rewrite E, Hcd in H2. cbn in H2. apply negb_true_iff in H2.
+      intros Hi. assert (existsb (N.eqb 47) t = true); [|congruence]. apply existsb_exists. exists 47. split; [exact Hi|reflexivity].
+    - intros Hid. rewrite Hid in H1. cbn in H1. destruct (item_name_n T w' nj'); [discriminate|discriminate H1].
+    - intros Hm. rewrite Hm in H3. cbn in H3. destruct (n_content nj') as [|[y|d] [|z r]]; try discriminate; [left; reflexivity|right; eexists; reflexivity]. }
   split.
-  - eapply (copy_inv04 w w' w1 w3 self c n cn0 (N.to_nat pos) m x path L R ren v other ids); eauto.
-    + intros j nj' Hwj Hj'. apply Hall. split.
-      * destruct (N.lt_ge_cases j (w_next w)) as [Hlt|Hge]; [exfalso|exact Hge].
-        assert (j <> self) by (intros ->; congruence). rewrite Hother in Hj'; [|assumption|lia].
-        destruct (renamed_cases w1 ren j) as [(E & _)|(s & sn & nm & Er & -> & _)].
-        -- rewrite E in Hj'. destruct HE as (_ & Hk & _). rewrite Hk in Hj' by exact Hlt. congruence.
-        -- pose proof (Hren_lo s sn nm Er). lia.
-      * eapply (proj1 Cw'); eauto.
+  - eapply (copy_inv04 w w' w1 w3 self c n cn0 (N.to_nat pos) m x path L R ren v other); eauto.
     + apply orb_true_iff in HLc as [Hl|Hl]; [left; exact Hl|right]. destruct L; [reflexivity|discriminate].
     + intros Hp. destruct (Hfront Hp) as (H1 & H2). split; [exact H1|]. intros Hnm. rewrite Hcn0_name. exact (H2 Hnm).
   - eapply (copy_inv05 w w' w1 w3 self c n cn0 (N.to_nat pos) m x path L R ren v other); eauto.
